@@ -236,7 +236,7 @@ def axes_from_lists(
             f"Scaled units {scaled_units} does not have same length as axis names {axis_names}"
         )
 
-    if axis_offset is not None and len(axis_offset) != len(axis_offset):
+    if axis_offset is not None and len(axis_offset) != len(axis_names):
         raise ValueError(
             f"Axis offset {axis_offset} does not have same length as axis names {axis_names}"
         )
